@@ -27,15 +27,58 @@ func checkC06(c *Ctx, r *Report) {
 	// ---- R0: an acknowledged record must already be in S3, otherwise no restart can recover it.
 	// These are C01's clauses (ack-after-flush, drained-batch typestate, Flush's wait-then-nil shape),
 	// re-evaluated here because C06 fails whenever one of them does.
-	r.rule("C06.R0", "C01.R1/R3/R4 hold (acknowledged ⇒ uploaded): prerequisites of crash safety", 6)
+	r.rule("C06.R0", "C01.R1-R4 hold (acknowledged ⇒ uploaded): prerequisites of crash safety", 6)
 	sub := newReport("C01")
 	checkC01(c, sub)
 	for _, x := range sub.Results {
 		if x.Status == Info {
 			continue
 		}
-		if x.Rule == "C01.R1" || x.Rule == "C01.R3" || x.Rule == "C01.R4" {
+		if x.Rule == "C01.R1" || x.Rule == "C01.R2" || x.Rule == "C01.R3" || x.Rule == "C01.R4" {
 			r.add("C06.R0", x.Rule+": "+x.Construct, x.Pos, x.Status, x.Detail)
+		}
+	}
+
+	// ---- R4 who may delete objects: nothing on the produce / flush / restore-from-S3 path removes a
+	// segment or index. The only callers are the point-in-time restore's rollback of its own target
+	// copies and the forwarding methods of the S3 client wrappers.
+	r.rule("C06.R4", "who-may-call DeleteSegment / DeleteIndex", 2)
+	{
+		allowed := map[string]string{
+			pkgStorage + ".RecoverTopicToTimestamp":           "deferred rollback of the restore's own copies (C08.R1)",
+			"(*" + pkgBroker + ".dualS3Client).DeleteSegment": "forwarding method of the dual client (C44.R1)",
+			"(*" + pkgBroker + ".dualS3Client).DeleteIndex":   "forwarding method of the dual client (C44.R1)",
+		}
+		seen := map[string]bool{}
+		n := 0
+		for _, fn := range m.AllFuncs {
+			for _, call := range callsIn(fn) {
+				cc := call.Common()
+				if !cc.IsInvoke() || (cc.Method.Name() != "DeleteSegment" && cc.Method.Name() != "DeleteIndex") {
+					continue
+				}
+				if !strings.HasSuffix(cc.Value.Type().String(), "storage.S3Client") {
+					continue
+				}
+				n++
+				name := funcName(fn)
+				if i := strings.Index(name, "$"); i >= 0 {
+					name = name[:i] // a closure is judged as part of the function that defines it
+				}
+				key := "caller of S3Client." + cc.Method.Name() + ": " + name
+				if seen[key] {
+					continue
+				}
+				seen[key] = true
+				if why, ok := allowed[name]; ok {
+					r.ok("C06.R4", key, m.Pos(call.Pos()), "allowed: "+why)
+				} else {
+					r.viol("C06.R4", key, m.Pos(call.Pos()), "an object is deleted outside the restore rollback: a delete issued after a failed flush can land after another producer's retry has re-uploaded and been acknowledged for the same key")
+				}
+			}
+		}
+		if n == 0 {
+			r.unresolved("C06.R4", "callers of DeleteSegment/DeleteIndex", "none found")
 		}
 	}
 
